@@ -38,7 +38,12 @@ def gen_case(rng):
         for _ in range(r.choice([0, 1, 2, 3, 6])):
             q = r.random()
             if q < 0.5:
-                cls.append("d-%s-%d" % (r.choice(PATTERNS), r.choice([1, 2, 3, 5, 8, 10, 20, 50, 100])))
+                n_ = r.choice([1, 2, 3, 5, 8, 10, 20, 50, 100])
+                # the same spacing may be spelled several ways (leading zeros, sign): distinct classes, equal numeric value
+                sp = r.choice(["%d", "%d", "%d", "%02d", "%03d", "+%d"]) % n_
+                if sp != str(n_):
+                    feats.add("pattern-n.alt-spelling")
+                cls.append("d-%s-%s" % (r.choice(PATTERNS + ["grid-h", "grid-v"]), sp))
                 feats.add("pattern-n")
             elif q < 0.65:
                 cls.append("d-" + r.choice(PATTERNS))
